@@ -9,7 +9,7 @@
 From Coq Require Import List ZArith NArith Bool Arith Lia.
 Import ListNotations.
 From DD Require Import Base.Sx Base.PyStr Base.Value Base.ValueFacts Path.PathModel Diff.Tree Diff.DiffModel
-  Diff.DiffFaithful Delta.DeltaModel Delta.DeltaVerify Delta.DeltaVerifyIndep Delta.DeltaReverse Delta.DeltaReverseDiff.
+  Diff.DiffFaithful Delta.DeltaModel Delta.DeltaVerify Delta.DeltaVerifyIndep Delta.DeltaReverse Delta.DeltaReverseDiff Delta.DeltaReverseSym.
 
 Definition ops_table_disjointb (tbl : list (path * list opcode)) : bool :=
   forallb (fun pe => ops_ok 0 (snd pe)) tbl.
@@ -101,4 +101,37 @@ Qed.
 Lemma sym_okb_all_sound es : forallb sym_okb es = true -> Forall sym_ok es.
 Proof. intros H. apply Forall_forall. intros e He. apply sym_okb_sound. eapply forallb_forall in H; eassumption. Qed.
 
+(* ---- korder (guard of the positional-mode inversion theorem) ---- *)
+Fixpoint korderb (t1 t2 : value) {struct t1} : bool :=
+  match t1, t2 with
+  | VList xs, VList ys | VTuple xs, VTuple ys =>
+      (fix go (xs ys : list value) {struct xs} : bool :=
+         match xs, ys with
+         | x :: xs', y :: ys' => korderb x y && go xs' ys'
+         | _, _ => true
+         end) xs ys
+  | VDict kvs1, VDict kvs2 =>
+      alist_eqb (filter (has_key kvs2) (map fst kvs1)) (filter (has_key kvs1) (map fst kvs2)) &&
+      (fix go (l : list (atom * value)) : bool :=
+         match l with
+         | [] => true
+         | (k, v1) :: r => match assoc k kvs2 with Some v2 => korderb v1 v2 | None => true end && go r
+         end) kvs1
+  | _, _ => true
+  end.
+
+Lemma korderb_sound : forall t1 t2, korderb t1 t2 = true -> korder t1 t2.
+Proof.
+  induction t1 as [a|xs IH|xs IH|kvs IH|xs|xs] using value_ind'; intros t2 H; destruct t2; try exact I.
+  - cbn in H |- *. revert xs0 H. induction IH as [|x xs Hx _ IHl]; intros [|y ys] H; try exact I.
+    apply andb_true_iff in H as [H1 H2]. split; [apply Hx; exact H1|apply IHl; exact H2].
+  - cbn in H |- *. revert xs0 H. induction IH as [|x xs Hx _ IHl]; intros [|y ys] H; try exact I.
+    apply andb_true_iff in H as [H1 H2]. split; [apply Hx; exact H1|apply IHl; exact H2].
+  - cbn in H |- *. apply andb_true_iff in H as [H1 H2]. split; [apply alist_eqb_eq; exact H1|].
+    clear H1. induction IH as [|[k v] l Hk _ IHl]; [exact I|].
+    apply andb_true_iff in H2 as [H2 H3]. split; [|apply IHl; exact H3].
+    destruct (assoc k kvs0); [apply Hk; exact H2|exact I].
+Qed.
+
 Definition sx_c08hyp (indep disj sym kn : bool) : sx := SL [sx_bool indep; sx_bool disj; sx_bool sym; sx_bool kn].
+Definition sx_c08hyp5 (indep disj sym kn ko : bool) : sx := SL [sx_bool indep; sx_bool disj; sx_bool sym; sx_bool kn; sx_bool ko].
